@@ -6,8 +6,64 @@ use crate::e2e_gen::*;
 use crate::session::Session;
 use crate::util::*;
 
+/// the transport ends while part of a frame is still buffered (the peer vanished in mid-frame; with the WebSocket
+/// adapter: its last message ended inside a chunk): the decoded stream must END — report the truncation at most once and
+/// then finish — because the pump that forwards it waits for exactly that before it closes the other side
+fn truncated_end(s: &mut Session, rng: &mut Rng) {
+    use crate::c04::random_uuid;
+    use crate::gen_ss::*;
+    for proto in ["aes-128-gcm", "2022-blake3-aes-128-gcm", "vmess", "trojan-udp"] {
+        for adapter in ["", " adapter=ws"] {
+            s.begin_case(&format!("truncated-end:{}{}", proto, adapter.replace(" adapter=", ":")));
+            let (c, sv) = (s.fresh("c"), s.fresh("s"));
+            let addr = random_addr(rng);
+            match proto {
+                "vmess" => {
+                    let uuid = random_uuid(rng);
+                    s.run(&format!("vm.client {} uuid={} cipher=aes-128-gcm cmd=tcp addr={}", c, uuid, addr));
+                    s.run(&format!("vm.server {} users=a:{}{}", sv, uuid, adapter));
+                }
+                "trojan-udp" => {
+                    s.run(&format!("tj.client {} password=secret cmd=udp addr={}", c, addr));
+                    s.run(&format!("tj.server {} password=secret{}", sv, adapter));
+                }
+                cipher => {
+                    let cipher: &'static str = CIPHERS.iter().find(|c| **c == cipher).unwrap();
+                    let cfg = random_cfg(rng, cipher, false);
+                    let (cc, sc) = (s.fresh("cc"), s.fresh("sc"));
+                    s.run(&format!("ss.cctx {} cipher={} password={}", cc, cipher, cfg.client_password));
+                    s.run(&format!("ss.sctx {} cipher={} password={} users=-", sc, cipher, cfg.server_password));
+                    s.run(&format!("ss.new {} {} {}", c, cc, addr));
+                    s.run(&format!("ss.new {} {} -{}", sv, sc, adapter));
+                }
+            }
+            let wire = if proto == "trojan-udp" {
+                let mut w = vec![];
+                for _ in 0..2 {
+                    let r = s.run(&format!("st.enc {} {} to={}", c, hex(&rng.bytes(50)), random_addr(rng)));
+                    w.extend(unhex(&r).unwrap_or_default());
+                }
+                Some(w)
+            } else {
+                encode_all(s, &c, &[rng.bytes(300), rng.bytes(200)])
+            };
+            let Some(wire) = wire else { continue };
+            // everything but the last 7 bytes, in two reads / messages; then the end of the transport
+            let cutp = wire.len() - 7;
+            let first = wire.len() / 2;
+            let d = feed_all(s, &sv, &[wire[..first].to_vec(), wire[first..cutp].to_vec()], true);
+            let last = s.lines.last().cloned().unwrap_or_default();
+            if d.panic || !d.end || last.contains("err-forever") {
+                s.oracle_fail(&format!("truncated-end:{}", proto), &format!("a transport that ended inside a frame: the decoded stream did not end (end={} panic={}){}", d.end, d.panic, if last.contains("err-forever") { ": it reports an error on every poll, forever" } else { "" }));
+            }
+            s.mark_nontrivial();
+        }
+    }
+}
+
 pub fn generate(s: &mut Session, tier: &str, rng: &mut Rng) {
     let thorough = tier == "thorough";
+    truncated_end(s, rng);
     let mut transports = vec!["tcp", "ws"];
     if tls_available() {
         transports.extend(["tls", "wss", "quic"]);
